@@ -309,7 +309,7 @@ func main() {
 		if *tier == "thorough" {
 			budget = 15 * time.Minute
 		} else {
-			budget = 4 * time.Minute
+			budget = 6 * time.Minute
 		}
 	}
 	// run harnesses concurrently (bounded); the budget is per harness and starts when it starts
